@@ -25,7 +25,7 @@ ASSUMPTIONS = [
     "query ids are unique within the first list (rows are matched by query id and order of appearance = rank)",
     "tolerances: distances/offsets 1e-9 relative (1e-6 for the moved configuration), angular distance 1e-9 degrees (2e-5 within 1 degree of 0 or 180), matrices 1e-9 (1e-6 within 1e-4 rad of gimbal lock; 1e-6 after the rigid motion)",
 ]
-BUDGET = {"quick": {"examples": 450, "seconds": 85}, "thorough": {"examples": 2500, "seconds": 540}}
+BUDGET = {"quick": {"examples": 900, "seconds": 85}, "thorough": {"examples": 2500, "seconds": 540}}
 
 C = oracle.MOTL_COLUMNS
 IX = {c: i for i, c in enumerate(C)}
